@@ -121,7 +121,7 @@ def table_worker(cells, tier, open_classes):
                 continue
             text, tt_eff = cell_program(ctxname, ts, tt)
             cellname = f"{ctxname} {tn(ts)}->{tn(tt_eff)}"
-        cls = classes_of(ctxname, ts, tt_eff)
+        cls = classes_of(ctxname, ts, tt_eff) & open_classes
         st, il = progcheck.try_compile(c, text)
         if st != "ok":
             p.count("cell:rejected")
